@@ -135,6 +135,22 @@ Proof.
 Qed.
 Print Assumptions C12_message.
 
+(* how "required" reads on a scalar declared without [optional] (the reading fixed in
+   RulesSpec.v, made explicit): the compiled field has no presence of its own, the
+   message in which it holds its default value is the message in which it is unset,
+   and the validator rejects it — also when a client sent an explicit 0 / "" / false *)
+Theorem C12_required_scalar_rejects_default :
+  forall re_ok re_match pat_sem, engine_ok re_ok re_match pat_sem ->
+  forall env idx name t desc o v,
+    wf_env env = true ->
+    fty_patterns_ok re_ok t = true ->
+    is_msg_ty t = false ->
+    write_prop env idx (P name true false (PSingle t) desc) = Ok o ->
+    value_typed t v = true -> is_zero v = true ->
+    validate_sem re_ok re_match (defined_numbers env) o (FOne v) = VReject.
+Proof. exact c12_required_default. Qed.
+Print Assumptions C12_required_scalar_rejects_default.
+
 (* ---- a concrete engine: the RE2 fragment of model/Regex.v ---------------------------
    [pattern_sem p s]: p parses (Regex.re_parse) to an expression r of the fragment and
    r finds a match in s by the DECLARATIVE relation Regex.search (inductive matching
